@@ -4,8 +4,8 @@ of every case agree, the compound loop is "first alternative that does not say
 TraitError", the tuple check is element-wise.
 -/
 import TraitsVerif.Model.PyValidate
-namespace TraitsVerif.Model
-open TraitsVerif TraitsVerif.Py
+namespace TraitsVerif.Model.Val
+open TraitsVerif TraitsVerif.Py.Value
 
 /-- A stand-alone result seen from inside the compound loop. -/
 def Res.lift : Res → Step
@@ -205,4 +205,4 @@ theorem elementwise_ok_iff (rs : List Res) (ws : List Val) :
           · intro h3
             exact (List.map_inj_right (fun a b h => by cases h; rfl)).mp h3
 
-end TraitsVerif.Model
+end TraitsVerif.Model.Val
